@@ -90,14 +90,25 @@ def read_reply(src):
             notes.append("execute_submsg: %s arm: %d Reply literals" % (m.group(1), len(rl)))
             arm["fields"] = [("?", "?")]
         # what happens to the sub-message's response `var` with / without a reply, and who is handed the Reply
+        def canon(s, extra=()):
+            """local names are not part of the rule: the arm's bound variable becomes `$r`, let-bound names `$v`"""
+            s = re.sub(r"\b%s\b" % re.escape(var), "$r", s)
+            for x in extra:
+                s = re.sub(r"\b%s\b" % re.escape(x), "$v", s)
+            return s
+
         def effects(text):
-            out = []
+            out, lets = [], []
             for st in C.split_top(text, ";"):
                 s = C.squash(st)
+                lm = re.match(r"^let (?:mut )?(\w+)(?::[^=]*)?=", s)
+                if lm and re.search(r"\bself\.reply\(", s):
+                    lets.append(lm.group(1))
                 if re.match(r"^%s\.\w+(=[^=]|\.)" % re.escape(var), s) or re.search(r"\bself\.reply\(", s) or re.match(r"^(Ok|Err)\(", s):
                     s = re.sub(r"Reply\{.*\}", "Reply{..}", s)
-                    out.append(s)
+                    out.append(canon(s, lets))
             return out
+        arm["fields"] = [(f, canon(e)) for f, e in arm["fields"]]
         arm["then"] = effects(then)
         arm["otherwise"] = effects(other)
         arms.append(arm)
@@ -128,14 +139,14 @@ def read_verify(src):
 EXPECTED_ARMS = [
     {"outcome": "Ok", "modes": ["Always", "Success"],
      "fields": [("id", "id"), ("payload", "payload"), ("gas_used", "0"), ("result", "SubMsgResult::Ok"),
-                ("result.events", "r.events.clone()"), ("result.data", "r.data.clone()")],
-     "then": ["let reply_res=self.reply(api,router,storage,block,contract,reply)?", "r.data=reply_res.data",
-              "r.events.extend_from_slice(&reply_res.events)"],
-     "otherwise": ["r.data=None"]},
+                ("result.events", "$r.events.clone()"), ("result.data", "$r.data.clone()")],
+     "then": ["let $v=self.reply(api,router,storage,block,contract,reply)?", "$r.data=$v.data",
+              "$r.events.extend_from_slice(&$v.events)"],
+     "otherwise": ["$r.data=None"]},
     {"outcome": "Err", "modes": ["Always", "Error"],
      "fields": [("id", "id"), ("payload", "payload"), ("gas_used", "0"), ("result", "SubMsgResult::Err")],
      "then": ["self.reply(api,router,storage,block,contract,reply)"],
-     "otherwise": ["Err(e)"]},
+     "otherwise": ["Err($r)"]},
 ]
 
 EXPECTED_VERIFY = [
